@@ -490,7 +490,8 @@ func cmdCheck(args []string) int {
 			cfg.MaxSteps = 5_000_000
 		}
 		// budgets: exceeding one makes the run inconclusive, never a pass
-		cfg.Deadline = time.Now().Add(6 * time.Minute)
+		cfg.Deadline = time.Now().Add(12 * time.Minute)
+		cfg.TimeoutMs = 60000
 		if cfg.MaxPaths == 0 {
 			cfg.MaxPaths = 4_000_000
 		}
